@@ -10,6 +10,7 @@ CHECKS = {
  "C12": ("proof", "all obligations of FindClosest/getClosest (nearest, member, exact, index safety, overflow, termination), SortedKeys/ExtractKeysWithDistinctValues (ascending, first key of every run of equal outputs, characterised without gaps), updateDistinctPwmValues and setPwm (the only write is pwmMap[nearest supported input]) are discharged for all maps and requests", BASE_NOTE + "; sort.Ints/sort.Slice contract assumed"),
  "C01": ("proof", "every obligation of the regulation step (calculateTargetPwm, setPwm, UpdateFanSpeed, both control loops, all fan backends) is discharged: the request lies in [fan min, fan max], the only PWM write of a cycle is pwmMap[nearest supported input of that request], hence in 0..255 for maps with outputs in 0..255; holds for arbitrary curve values, loop states and RPM histories because the controller invariant ctrlInv is preserved by every step (after the fix: commit 9d733a1)", BASE_NOTE + "; curve evaluation abstracted to an arbitrary int"),
  "C08": ("proof", "updateSensor (all four sensor kinds): a poll that returns an error leaves the smoothed value bit-identical; a successful poll yields a finite average inside [min(old, reading), max(old, reading)] for window sizes >= 2 (float64 modelled as rounded reals; readings and averages up to 1e300, |reading - average| >= 1e-290 or equal); every GetValue returns an error when the underlying read failed and only finite values (after fixes 8501fbc, 061db47); UpdateSimpleMovingAvg has a fixpoint at old == new. Not covered: the geometric rate (1-1/n) and window size 1 (double rounding)", BASE_NOTE + "; ParseFloat may return any float on success; the history-level hull follows from the per-poll hull by induction (meta-argument, DESIGN 2.9)"),
+ "C13": ("other", "partial proof: ComputePwmBoundaries returns the lowest PWM reaching the highest whole-RPM value (255 when nothing spins) and the lowest PWM with non-zero RPM (unbounded proof with loop invariants over the sorted key list, for all finite data maps with keys 0..255); AttachFanRpmCurveData refuses nil/empty data without touching the limits, never replaces a configured min/start/max (invariant hwCfg, established by NewFan), derives max and - on a first attachment - start from the data; GetMinPwm is 0 without neverStop. One known finding: on a repeated attachment the previously measured start PWM is kept", BASE_NOTE + "; sort.Ints contract assumed; RPM values finite and below 1e15"),
  "C18": ("proof", "CheckFilePermissionsForExecution: err == nil exactly when the path resolves, its metadata can be read, the owner is root, group-write implies group root and others cannot write - one proof for all uid/gid/mode combinations and for symlinks (the predicate is about the resolved path); SafeCmdExecution starts a process only after the check passed in the same call and starts nothing when it fails (ghost counter of started processes); no nil dereference on any stat outcome (after fix c18558b)", BASE_NOTE + "; OS model: EvalSymlinks/Stat/FileInfo.Sys/Mode relate to ghost file metadata"),
  "C19": ("proof", "SafeCmdExecution and the cmd fan methods never panic for any error type returned by exec (after fix 0237c08); the call is bounded because the context carries a deadline and WaitDelay > 0 (preconditions of the assumed os/exec contract, discharged after fix a3325b9); on error the output is empty", BASE_NOTE + "; wall-clock bound rests on os/exec's documented contract (extern), observed only by the replay recipes"),
  "C02": ("other", "partial proof: for hwmon fans every obligation is discharged (request >= effective floor, floor = fan minimum + offset never decreases, a raise makes the request strictly higher, after fix 9d733a1); the clause 'the minimum is the configured minPwm' fails for file and cmd fans, which ignore minPwm - recorded as two known findings with a replay on the real code", BASE_NOTE),
